@@ -100,6 +100,7 @@ type Wire struct {
 	Target    netip.Addr
 	OnProbe   func(v pkt.View)
 	ownerless []byte
+	FloodArrived, FloodDelivered int
 }
 
 type flowState struct {
@@ -294,6 +295,9 @@ func (w *Wire) flowFor(b []byte, v pkt.View) *flowState {
 	}
 	w.flows = append(w.flows, f)
 	w.scheduleInjects(f)
+	if f.idx == 0 && w.script.FloodN > 0 {
+		w.startFlood(f)
+	}
 	return f
 }
 
@@ -423,6 +427,46 @@ func (w *Wire) scheduleInjects(f *flowState) {
 	}
 }
 
+// startFlood injects FloodN irrelevant packets every FloodUs until the wire is stopped.
+func (w *Wire) startFlood(f *flowState) {
+	period := time.Duration(w.script.FloodUs) * time.Microsecond
+	if period <= 0 {
+		period = time.Millisecond
+	}
+	var tick func()
+	n := 0
+	tick = func() {
+		w.mu.Lock()
+		defer w.mu.Unlock()
+		if w.stopped {
+			return
+		}
+		for i := 0; i < w.script.FloodN; i++ {
+			n++
+			var b []byte
+			switch w.script.FloodKind {
+			case "junk":
+				b = []byte{0x45, 0, 0, byte(n), 1, 2, 3}
+			case "foreign_tcp":
+				ip := pkt.IP{Src: mustAddr("192.0.2.50"), Dst: f.fl.Local, TTL: 60, Proto: 6}
+				if f.fl.Local.Is6() {
+					ip.V6, ip.Src = true, mustAddr("2001:db8:f::50")
+				}
+				b = pkt.BuildIP(ip, pkt.BuildTCP(ip.Src, ip.Dst, pkt.TCP{SPort: 443, DPort: uint16(1024 + n%5000), Flags: pkt.ACK, Seq: uint32(n)}))
+			default: // a time-exceeded about somebody else's flow
+				r := Reply{Form: "te", From: "192.0.2.51", Mods: NumMap{"q_dport": 9, "q_eid": 7, "q_sport": 9}, ModsS: StrMap{}}
+				if f.fl.Local.Is6() {
+					r.From = "2001:db8:f::51"
+				}
+				b, _ = r.Encode(f.first, f.fl)
+			}
+			w.deliverLocked(b, "flood", 0)
+		}
+		w.timers = append(w.timers, time.AfterFunc(period, tick))
+	}
+	w.timers = append(w.timers, time.AfterFunc(period, tick))
+}
+
 // InjectRaw delivers bytes now (used by runners that drive the wire directly).
 func (w *Wire) InjectRaw(b []byte, tag string) {
 	w.mu.Lock()
@@ -432,17 +476,25 @@ func (w *Wire) InjectRaw(b []byte, tag string) {
 
 // deliverLocked offers a packet to every open capture handle (subject to its installed filter).
 func (w *Wire) deliverLocked(b []byte, tag string, forTTL int) {
-	w.pktSeq++
-	id := w.pktSeq
-	v := pkt.Describe(b)
-	w.log("Arrive", "pkt", id, "tag", tag, "for_ttl", forTTL, "d", v)
+	id := 0
+	if tag == "flood" {
+		// flood packets are irrelevant by construction; they are counted, not logged one by one
+		w.FloodArrived++
+	} else {
+		w.pktSeq++
+		id = w.pktSeq
+		v := pkt.Describe(b)
+		w.log("Arrive", "pkt", id, "tag", tag, "for_ttl", forTTL, "d", v)
+	}
 	for _, h := range w.handles {
 		if h.kind != "source" || h.closed > 0 {
 			continue
 		}
 		if w.script.Filter && h.filter != nil {
 			if !runFilter(h.filter, b) {
-				w.log("Filtered", "pkt", id, "h", h.id, "ftype", h.ftype)
+				if id != 0 {
+					w.log("Filtered", "pkt", id, "h", h.id, "ftype", h.ftype)
+				}
 				continue
 			}
 		}
@@ -563,7 +615,11 @@ func (s *source) Read(buf []byte) (int, error) {
 			b, id := s.queue[0], s.qids[0]
 			s.queue, s.qids = s.queue[1:], s.qids[1:]
 			n := copy(buf, b)
-			w.log("Deliver", "pkt", id, "h", s.id, "run", s.run, "trunc", n < len(b))
+			if id != 0 {
+				w.log("Deliver", "pkt", id, "h", s.id, "run", s.run, "trunc", n < len(b))
+			} else {
+				w.FloodDelivered++
+			}
 			w.mu.Unlock()
 			return n, nil
 		}
